@@ -39,6 +39,10 @@ type Schema struct {
 	// their result is kept, the types must be complete by then.
 	compiled bool
 
+	// loaded is set when the text has been read, successfully or not: the result
+	// is kept, a rule added afterwards would not be looked at.
+	loaded bool
+
 	astNode                  jschema.ASTNode
 	areKeysOptionalByDefault bool
 }
@@ -171,7 +175,9 @@ func (s *Schema) AddType(name string, sc jschema.Schema) (err error) {
 }
 
 func (s *Schema) AddRule(n string, r jschema.Rule) error {
-	if s.inner != nil {
+	// Also after a load which has failed (the rule was missing): its error is
+	// kept, so the rule would be accepted here and ignored by everything else.
+	if s.inner != nil || s.loaded {
 		return stdErrors.New("schema is already compiled")
 	}
 
@@ -286,6 +292,7 @@ func (s *Schema) load() error {
 		defer func() {
 			err = panics.Handle(recover(), err)
 		}()
+		s.loaded = true
 		sc := loader.LoadSchemaWithoutCompile(
 			scanner.New(s.file),
 			nil,
